@@ -113,7 +113,7 @@ def main():
                 bad.append((name, arg, "function not found in the MIR dump"))
                 continue
             parts = arg.split(",")
-            if name in ("p_saturating", "q_wrapping", "r_int_ops"):
+            if name in ("p_saturating", "q_wrapping", "r_int_ops", "r_int_map"):
                 args = [int(parts[0])]
             else:
                 args = [Str([ord(c) for c in INPUTS[int(parts[0])]])] + [int(x) for x in parts[1:]]
